@@ -3,7 +3,7 @@
 From Coq Require Import List Bool NArith PeanoNat Lia.
 Import ListNotations.
 Require Import PV.Binder.Kind PV.Gen.Kinds PV.Binder.Sig PV.Binder.SigAssign PV.Binder.PyBind.
-Require Import PV.Proofs.SigAssignRefute.
+Require Import PV.Proofs.SigAssignRefute PV.Proofs.BinderConcrete.
 Close Scope N_scope.
 Open Scope nat_scope.
 
@@ -216,4 +216,98 @@ Theorem accept_positional_capacity_valid : forall e a,
 Proof.
   intros e a Hv H. apply accept_positional_capacity; [assumption|].
   unfold valid_sig in Hv. apply andb_true_iff in Hv as [Hv _]. eapply validate_pos_prefix; eassumption.
+Qed.
+
+(* ---------- what a name in consumed_keyword stands for ---------- *)
+Definition kw_match (e a : sig) (n : N) : Prop :=
+  exists m t, In m e /\ In t a /\ pname t = n /\ pname m = n /\ default_clash m t = false /\
+    ((pkind m = POK /\ pkind t = POK) \/ (pkind m = KO /\ is_kw_target (pkind t) = true)).
+
+Lemma sca_loop_ckw : forall a e i st st',
+  sca_loop a i st e = Some st' ->
+  forall n, memN n (ckw st') = true -> memN n (ckw st) = true \/ kw_match e a n.
+Proof.
+  intros a. induction e as [|m0 r IH]; intros i st st' H n Hn.
+  - cbn in H. injection H as <-. left. assumption.
+  - cbn [sca_loop] in H. destruct (sca_step a i st m0) as [st1|] eqn:Es; [|discriminate].
+    destruct (IH _ _ _ H n Hn) as [Hin|(m & t & H1 & H2 & H3 & H4 & H5 & H6)].
+    + (* n in ckw st1: where does it come from in this step? *)
+      assert (Hstep : memN n (ckw st) = true \/
+                      exists t, In t a /\ pname t = n /\ pname m0 = n /\ default_clash m0 t = false /\
+                        ((pkind m0 = POK /\ pkind t = POK) \/ (pkind m0 = KO /\ is_kw_target (pkind t) = true))).
+      { unfold sca_step in Es.
+        destruct (pkind m0) eqn:Ek.
+        - (* PO *) destruct (nth_error a i) as [t|].
+          + destruct (is_positional (pkind t)).
+            * destruct (default_clash m0 t); [discriminate|]. injection Es as <-. left. exact Hin.
+            * destruct (param_of_kind VP a) as [va|]; [|discriminate]. injection Es as <-. left. exact Hin.
+          + destruct (param_of_kind VP a) as [va|]; [|discriminate]. injection Es as <-. left. exact Hin.
+        - (* POK *)
+          assert (Habs : forall s1, (if (match param_of_kind VP a with Some _ => true | None => false end)
+                                        && (match param_of_kind VK a with Some _ => true | None => false end)
+                                     then Some (opt_obl (param_of_kind VK a) (pname m0) (opt_obl (param_of_kind VP a) (pname m0) st))
+                                     else None) = Some s1 -> ckw s1 = ckw st).
+          { intros s1 E. destruct (_ && _); [|discriminate]. injection E as <-.
+            destruct (param_of_kind VK a), (param_of_kind VP a); reflexivity. }
+          destruct (nth_error a i) as [t|] eqn:En.
+          + destruct (pkind t) eqn:Et; try discriminate;
+              try (left; rewrite <- (Habs _ Es); exact Hin).
+            destruct (N.eqb (pname m0) (pname t)) eqn:Enm; [|discriminate]. cbn [negb] in Es.
+            destruct (default_clash m0 t) eqn:Ec; [discriminate|]. injection Es as <-.
+            cbn [ckw] in Hin. rewrite memN_cons in Hin. apply orb_true_iff in Hin as [Hin|Hin]; [|left; exact Hin].
+            apply N.eqb_eq in Hin. apply N.eqb_eq in Enm. right. exists t.
+            split; [eapply nth_error_In; eassumption|]. repeat split; auto; congruence.
+          + left. rewrite <- (Habs _ Es). exact Hin.
+        - (* VP *) destruct (param_of_kind VP a); [|discriminate]. injection Es as <-. left. exact Hin.
+        - (* KO *)
+          assert (Habs : forall s1, (if (match param_of_kind VK a with Some _ => true | None => false end)
+                                     then Some (opt_obl (param_of_kind VK a) (pname m0) st) else None) = Some s1 ->
+                                    ckw s1 = ckw st).
+          { intros s1 E. destruct (param_of_kind VK a); [|discriminate]. injection E as <-. reflexivity. }
+          destruct (find_param (pname m0) a) as [t|] eqn:Ef.
+          + destruct (is_kw_target (pkind t)) eqn:Et.
+            * destruct (default_clash m0 t) eqn:Ec; [discriminate|]. injection Es as <-.
+              cbn [ckw] in Hin. rewrite memN_cons in Hin. apply orb_true_iff in Hin as [Hin|Hin]; [|left; exact Hin].
+              apply N.eqb_eq in Hin. apply find_param_some in Ef as [Hta Htn]. right. exists t.
+              repeat split; auto; congruence.
+            * left. rewrite <- (Habs _ Es). exact Hin.
+          + left. rewrite <- (Habs _ Es). exact Hin.
+        - (* VK *) destruct (param_of_kind VK a); [|discriminate]. injection Es as <-. left. exact Hin. }
+      destruct Hstep as [Hs|(t & H1 & H2 & H3 & H4 & H5)]; [left; exact Hs|].
+      right. exists m0, t. repeat split; auto. left. reflexivity.
+    + right. exists m, t. repeat split; auto. right. assumption.
+Qed.
+
+Lemma nodup_same_name : forall (a : sig) t q,
+  names_nodup (map pname a) = true -> In t a -> In q a -> pname t = pname q -> t = q.
+Proof.
+  induction a as [|x a IH]; intros t q Hnd Ht Hq Hn; [contradiction|].
+  cbn [map names_nodup] in Hnd. apply andb_true_iff in Hnd as [Hx Hnd]. apply negb_true_iff in Hx.
+  assert (Hfresh : forall y, In y a -> pname y <> pname x).
+  { intros y Hy E. assert (memN (pname x) (map pname a) = true); [|congruence].
+    apply BinderConcrete.memN_true_iff. rewrite <- E. apply in_map. assumption. }
+  destruct Ht as [<-|Ht], Hq as [<-|Hq]; auto.
+  - exfalso. apply (Hfresh q Hq). congruence.
+  - exfalso. apply (Hfresh t Ht). congruence.
+Qed.
+
+(* every required keyword-only parameter of the accepted callable is a required
+   keyword-only parameter, of the same name, of the expected signature: every call
+   the expected signature binds passes it *)
+Theorem accept_required_kwonly : forall e a,
+  valid_sig a = true -> kinds_ok e a = true ->
+  forall q, In q a -> pkind q = KO -> pdefault q = false ->
+  exists m, In m e /\ pkind m = KO /\ pname m = pname q /\ pdefault m = false.
+Proof.
+  intros e a Hv H q Hq Hk Hd. unfold valid_sig in Hv. apply andb_true_iff in Hv as [_ Hnd].
+  unfold kinds_ok, sca in H.
+  destruct (sca_loop a 0 (mkC [] [] [] []) e) as [st|] eqn:E; [|discriminate].
+  destruct (forallb (extra_required_ok st) a) eqn:Ef; [|discriminate].
+  rewrite forallb_forall in Ef. specialize (Ef q Hq). unfold extra_required_ok in Ef.
+  rewrite Hk, Hd in Ef. cbn [is_var orb] in Ef.
+  destruct (sca_loop_ckw _ _ _ _ _ E _ Ef) as [Habs|(m & t & H1 & H2 & H3 & H4 & H5 & H6)]; [discriminate|].
+  assert (t = q) by (eapply nodup_same_name; eassumption). subst t.
+  destruct H6 as [[_ Hq']|[Hm _]]; [congruence|].
+  exists m. repeat split; auto. unfold default_clash in H5. rewrite Hd in H5. cbn [negb] in H5.
+  rewrite andb_true_r in H5. exact H5.
 Qed.
